@@ -446,3 +446,14 @@ def guard_task(prop_of, engine):
                 return st
         return g
     return deco
+
+
+def strip_log_lines(out):
+    """stdout of `hyeong run` without the tool's own leading log lines (`==> parsing ...`, `==> optimizing ...`,
+    `==> running code`): every leading line that starts with the log marker `==> ` is dropped, whatever its wording"""
+    while out.startswith(b'==> '):
+        i = out.find(b'\n')
+        if i < 0:
+            return b''
+        out = out[i + 1:]
+    return out
